@@ -160,6 +160,15 @@ func ruleR19a(c *Ctx) {
 	switch {
 	case len(ctor.Args) < 4:
 		c.unk("R19a", key, ctor.Pos(), "NewErrFilePosf call shape not recognised")
+	case sprintf == nil && len(ctor.Args) >= 7:
+		// the constructor's own (constant) format carries the prefix: NewErrFilePosf(file, line, col, "template %s:%d:%d: %s", file, line, col, msg)
+		ftv := info.Types[ctor.Args[3]]
+		constFmt := ftv.Value != nil && ftv.Value.Kind() == constant.String && strings.Contains(constant.StringVal(ftv.Value), "%s:%d:%d")
+		same := exprKey(ctor.Args[4]) == exprKey(ctor.Args[0]) && exprKey(ctor.Args[5]) == exprKey(ctor.Args[1]) && exprKey(ctor.Args[6]) == exprKey(ctor.Args[2])
+		fileOK := strings.HasSuffix(exprKey(ctor.Args[0]), ".name")
+		c.check(constFmt && same && fileOK, "R19a", key, ctor.Pos(),
+			"file, line and column in the message prefix are the very expressions passed as the error's File/Line/Col; the file is the parser's name",
+			fmt.Sprintf("message prefix (%s,%s,%s) and structured fields (%s,%s,%s) come from different expressions, or the file is not the parser's name", exprKey(ctor.Args[4]), exprKey(ctor.Args[5]), exprKey(ctor.Args[6]), exprKey(ctor.Args[0]), exprKey(ctor.Args[1]), exprKey(ctor.Args[2])))
 	case sprintf == nil:
 		c.bad("R19a", key, ctor.Pos(), "the message text is not prefixed with file:line:col from the same values as the structured fields")
 	default:
@@ -946,4 +955,149 @@ func currentNodeField(c *Ctx) *types.Var {
 		}
 	}
 	return found
+}
+
+// R19k: text that comes from the caller (the file name, token text, template text) never becomes part of a
+// format string. In parse, soyhtml and errortypes every call of a printf-like function (last parameters
+// `format string, args ...interface{}`) gets as its format a constant, or the enclosing function's own
+// format parameter forwarded unchanged. A format assembled from a name (fmt.Sprintf("template %s…", name)
+// used as format) turns a '%' in the file name into a mangled message.
+func ruleR19k(c *Ctx) {
+	n := 0
+	for _, rel := range []string{"parse", "soyhtml", "errortypes", "parsepasses", "template"} {
+		p := c.Pkgs[rel]
+		if p == nil {
+			c.fatalf("anchor: package %s not loaded", rel)
+			continue
+		}
+		info := p.TypesInfo
+		for _, fd := range c.allFuncDecls(rel) {
+			if strings.HasSuffix(c.Fset.Position(fd.Pos()).Filename, "_test.go") {
+				continue
+			}
+			// the function's own format parameter (second to last, string, followed by a variadic)
+			var ownFormat types.Object
+			if fl := fd.Type.Params.List; len(fl) >= 2 {
+				if _, variadic := fl[len(fl)-1].Type.(*ast.Ellipsis); variadic {
+					prev := fl[len(fl)-2]
+					if len(prev.Names) > 0 {
+						o := info.Defs[prev.Names[len(prev.Names)-1]]
+						if b, ok := o.Type().Underlying().(*types.Basic); ok && b.Info()&types.IsString != 0 {
+							ownFormat = o
+						}
+					}
+				}
+			}
+			reassigned := false
+			if ownFormat != nil {
+				ast.Inspect(fd.Body, func(x ast.Node) bool {
+					if as, ok := x.(*ast.AssignStmt); ok {
+						for _, l := range as.Lhs {
+							if id, ok := l.(*ast.Ident); ok && info.Uses[id] == ownFormat {
+								reassigned = true
+							}
+						}
+					}
+					return true
+				})
+			}
+			ord := 0
+			ast.Inspect(fd.Body, func(x ast.Node) bool {
+				call, ok := x.(*ast.CallExpr)
+				if !ok {
+					return true
+				}
+				var sig *types.Signature
+				if tv, ok := info.Types[call.Fun]; ok {
+					sig, _ = tv.Type.Underlying().(*types.Signature)
+				}
+				if sig == nil || !sig.Variadic() || sig.Params().Len() < 2 {
+					return true
+				}
+				fi := sig.Params().Len() - 2
+				fp := sig.Params().At(fi)
+				if b, ok := fp.Type().Underlying().(*types.Basic); !ok || b.Info()&types.IsString == 0 {
+					return true
+				}
+				if sl, ok := sig.Params().At(fi + 1).Type().(*types.Slice); !ok || !types.IsInterface(sl.Elem()) {
+					return true
+				}
+				if !strings.Contains(strings.ToLower(fp.Name()), "format") && fp.Name() != "msg" {
+					return true
+				}
+				if fi >= len(call.Args) {
+					return true
+				}
+				n++
+				ord++
+				fa := call.Args[fi]
+				good := false
+				if tv, ok := info.Types[fa]; ok && tv.Value != nil {
+					good = true
+				}
+				if id, ok := ast.Unparen(fa).(*ast.Ident); ok && ownFormat != nil && info.Uses[id] == ownFormat && !reassigned {
+					good = true
+				}
+				if why, ok := formatExceptions[fmt.Sprintf("%s format-argument#%d", c.declKey(rel, fd), ord)]; ok && !good {
+					c.okTrivial("R19k", fmt.Sprintf("%s format-argument#%d", c.declKey(rel, fd), ord), call.Pos(), "named exception: "+why)
+					return true
+				}
+				c.check(good, "R19k", fmt.Sprintf("%s format-argument#%d", c.declKey(rel, fd), ord), call.Pos(),
+					"the format is a constant or the function's own format parameter",
+					"the format handed to "+exprKey(call.Fun)+" is "+exprKey(fa)+", assembled at run time: text from the caller that ends up in it (a file name with a '%') is interpreted as formatting verbs, and the message no longer shows the name as given")
+				return true
+			})
+		}
+	}
+	c.floor("R19k", "printf-like calls examined", 20, n)
+}
+
+// formatExceptions: formats assembled at run time from text that cannot hold a '%'.
+var formatExceptions = map[string]string{
+	"soyhtml.state.errorf format-argument#2": "the only text spliced into the format is callAnnotation(): the executing template's name (an identifier: the scanner's identifier characters exclude '%') and a line number",
+}
+
+// R19l: the parser and the renderer count lines the same way, and a line ends at "\n" only: both
+// lexer.lineNumber and Registry.LineNumber return 1 + strings.Count(<text before the position>, "\n").
+// (Counting "\r" as well makes every CRLF line count twice: the reported line runs ahead of the construct and
+// past the end of the input; and the two sides would disagree about the same file.)
+func ruleR19l(c *Ctx) {
+	sites := []struct{ rel, fn string }{{"parse", "lexer.lineNumber"}, {"template", "Registry.LineNumber"}}
+	n := 0
+	for _, st := range sites {
+		p := c.pkg(st.rel)
+		fd := c.mustFunc(st.rel, st.fn)
+		if p == nil || fd == nil {
+			continue
+		}
+		info := p.TypesInfo
+		good := false
+		// the last return: 1 + strings.Count(X, "\n")
+		var last *ast.ReturnStmt
+		ast.Inspect(fd.Body, func(x ast.Node) bool {
+			if r, ok := x.(*ast.ReturnStmt); ok {
+				last = r
+			}
+			return true
+		})
+		if last != nil && len(last.Results) == 1 {
+			if be, ok := ast.Unparen(last.Results[0]).(*ast.BinaryExpr); ok && be.Op == token.ADD {
+				one, cnt := be.X, be.Y
+				if exprKey(cnt) == "1" {
+					one, cnt = cnt, one
+				}
+				if call, ok := ast.Unparen(cnt).(*ast.CallExpr); ok && exprKey(one) == "1" && len(call.Args) == 2 {
+					if cal := calleeFunc(call, info); cal != nil && cal.FullName() == "strings.Count" {
+						if tv := info.Types[call.Args[1]]; tv.Value != nil && tv.Value.Kind() == constant.String && constant.StringVal(tv.Value) == "\n" {
+							good = true
+						}
+					}
+				}
+			}
+		}
+		n++
+		c.check(good, "R19l", c.declKey(st.rel, fd)+" counts-newlines", fd.Pos(), "the line is 1 + the number of \"\\n\" before the position",
+			"the line number is not computed as 1 + strings.Count(text before the position, \"\\n\"): lines are counted differently from the other side (parser / renderer) and from what an editor shows — with CRLF input every line may count twice")
+	}
+	c.floor("R19l", "line counters", 2, n)
 }
